@@ -861,4 +861,26 @@ def labels_private(repo: Repo) -> RuleRun:
 labels_private.rule_id = "C12.LABELS-PRIVATE"
 
 
-RULES = [clear_complete, grade_idempotent, lockstep_filter, backport_map, delete_skip, assemble_walk, backport_owns_points, no_class_state, no_stale_lazy_cache, empty_patch, neighbour_untouched, exact_moves, grade_replay, labels_private]
+def geometry_redeclared(repo: Repo) -> RuleRun:
+    """'... the re-assembled mesh has the moved positions': clear() keeps the geometry list, so the geometry an entity declares again after it was moved must replace the older entry. Same rule as C06.GEOMETRY-REDECLARED."""
+    from ..report import rebrand
+    from . import c06
+
+    return rebrand(c06.geometry_redeclared(repo), PROP, "C12.GEOMETRY-REDECLARED")
+
+
+geometry_redeclared.rule_id = "C12.GEOMETRY-REDECLARED"
+
+
+def patch_state(repo: Repo) -> RuleRun:
+    """'... including patch types and settings changed through the mesh': the latest modify_patch wins, also when it takes the settings away. Same rule as C06.PATCH-STATE."""
+    from ..report import rebrand
+    from . import c06
+
+    return rebrand(c06.patch_state(repo), PROP, "C12.PATCH-STATE")
+
+
+patch_state.rule_id = "C12.PATCH-STATE"
+
+
+RULES = [clear_complete, grade_idempotent, lockstep_filter, backport_map, delete_skip, assemble_walk, backport_owns_points, no_class_state, no_stale_lazy_cache, empty_patch, neighbour_untouched, exact_moves, grade_replay, labels_private, geometry_redeclared, patch_state]
